@@ -160,6 +160,17 @@ def run_pool(mod, jobs, njobs, tier):
         pass
     rest = [j for j in jobs if j[1] not in done]
     running = []
+    attempts = {}
+    # a solver crash (z3 segfaults sporadically when an FP query is cancelled) kills the worker:
+    # such a configuration is retried up to twice in a process of its own before it is reported
+
+    def died(j, why):
+        attempts[j[1]] = attempts.get(j[1], 0) + 1
+        if attempts[j[1]] <= 2:
+            rest.append(j)
+        else:
+            results.append({"idx": j[1], "cfg": j[2], "crash": why})
+
     while rest or running:
         while rest and len(running) < njobs:
             j = rest.pop(0)
@@ -174,12 +185,10 @@ def run_pool(mod, jobs, njobs, tier):
                 try:
                     results.append(a.recv())
                 except EOFError:
-                    results.append({"idx": j[1], "cfg": j[2],
-                                    "crash": f"worker process died (exit code {p.exitcode})"})
+                    died(j, f"worker process died repeatedly (exit code {p.exitcode})")
                 p.join(5)
             elif not p.is_alive():
-                results.append({"idx": j[1], "cfg": j[2],
-                                "crash": f"worker process died (exit code {p.exitcode})"})
+                died(j, f"worker process died repeatedly (exit code {p.exitcode})")
             elif time.time() - t0 > budget:
                 p.kill()
                 results.append({"idx": j[1], "cfg": j[2],
